@@ -44,7 +44,8 @@ class Pool:
     """Fixed-size pools of symbolic primitives consumed in order by type-directed builders.
     Exhaustion means the value would be larger than the bound => Skip."""
 
-    def __init__(self, ints=(), strs=(), bools=(), floats=(), js=()):
+    def __init__(self, ints=(), strs=(), bools=(), floats=(), js=(), str_ok=None):
+        self.str_ok = str_ok         # lazily applied constraint on consumed strings (unused entries stay free)
         self.v = {'i': ints, 's': strs, 'b': bools, 'f': floats, 'j': js}
         self.n = {'i': 0, 's': 0, 'b': 0, 'f': 0, 'j': 0}
 
@@ -59,7 +60,10 @@ class Pool:
         return self._take('i')
 
     def str(self):
-        return self._take('s')
+        x = self._take('s')
+        if self.str_ok is not None and not self.str_ok(x):
+            raise Skip('string outside the bound')
+        return x
 
     def bool(self):
         return self._take('b')
